@@ -127,11 +127,11 @@ def IsResult (l r : List Msg) : Prop :=
   | _ => ∃ p, p.Perm l ∧ AdjSorted p ∧ r = dedupAdj p
 
 /-- A particular sort (insertion from the right). -/
-def insert (x : Msg) : List Msg → List Msg
+def ins (x : Msg) : List Msg → List Msg
   | [] => [x]
-  | y :: ys => if less x y then x :: y :: ys else y :: insert x ys
+  | y :: ys => if less x y then x :: y :: ys else y :: ins x ys
 
-def sort (l : List Msg) : List Msg := l.foldr insert []
+def isort (l : List Msg) : List Msg := l.foldr ins []
 
 /-- The model's `errorSort`: one of the possible results (`Props.C05.errorSort_isResult`), and by
 `Props.C05.errorSort_perm_invariant` the only one. -/
@@ -139,7 +139,7 @@ def errorSort (l : List Msg) : List Msg :=
   match l with
   | [] => []
   | [x] => [x]
-  | _ => dedupAdj (sort l)
+  | _ => dedupAdj (isort l)
 
 /-! ### the comparator before the repair (D24, D37) -/
 
@@ -167,5 +167,28 @@ def lessOld (si sj : Msg) : Bool :=
   if bytesLt fi0 fj0 then true
   else if bytesLt fj0 fi0 then false
   else lessLoopOld (errorSplitCount - 1) fi fj
+
+/-! ### the comparator between ba2230f and b1f5bf9 (D47) -/
+
+/-- The loop as repaired by ba2230f alone: when both messages run out of fields at the same
+place, neither is less. -/
+def lessLoopMid (si sj : Msg) : Nat → List Msg → List Msg → Bool
+  | 0, _, _ => bytesLt si sj
+  | n + 1, fi, fj =>
+    match fi, fj with
+    | _, [] => false
+    | [], _ :: _ => true
+    | a :: as, b :: bs =>
+      match nless a b with
+      | .lt => true
+      | .gt => false
+      | .eq => lessLoopMid si sj n as bs
+
+def lessMid (si sj : Msg) : Bool :=
+  let (fi0, fi) := fields si
+  let (fj0, fj) := fields sj
+  if bytesLt fi0 fj0 then true
+  else if bytesLt fj0 fi0 then false
+  else lessLoopMid si sj (errorSplitCount - 1) fi fj
 
 end Goyang.Model.ErrorSort
